@@ -237,66 +237,62 @@ theorem marshal_plain_correct (t : Ty) (hp : Plain t = true) (v : Val t)
 /-! ### callBin: receiver offset -/
 
 /-- the rule, spelled out -/
-theorem rcvrOffset_rule (hasRecv recvIsIface isVariadic : Bool) (numIn nArgs : Nat) :
-    rcvrOffsetY E hasRecv recvIsIface isVariadic numIn nArgs =
-      if hasRecv && !recvIsIface then
+theorem rcvrOffset_rule (hasRecv recvIsIface methodValue isVariadic : Bool) (numIn nArgs : Nat) :
+    rcvrOffsetY E hasRecv recvIsIface methodValue isVariadic numIn nArgs =
+      if hasRecv && !methodValue && !recvIsIface then
         (if (decide ((if isVariadic then (numIn : Int) - 1 else -1) > 0) || decide (numIn > nArgs)) then 1 else 0)
       else 0 := by
   simp [rcvrOffsetY, variadicIdxY, CExpr.eval, E, Expected.C07.facts]
 
-/-- **Receiver offset**, method of a host value whose reflected signature starts with the receiver
+/-- **Receiver offset**, method of a host value selected at the call, whose reflected signature starts with the receiver
     (`reflect.Type.Method(i).Type`, every non-interface type): for every number of parameters, every variadic position
     and every number of arguments Go accepts (a nested multi-value call may stand for several parameters), the offset is 1. -/
 theorem rcvr_offset_correct (isVariadic : Bool) (nParams nArgs : Nat)
     (hv : isVariadic = true → nParams ≥ 1) (hn : isVariadic = false → nArgs ≤ nParams) :
-    rcvrOffsetY E true false isVariadic (nParams + 1) nArgs = 1 := by
+    rcvrOffsetY E true false false isVariadic (nParams + 1) nArgs = 1 := by
   rw [rcvrOffset_rule]
   cases isVariadic with
   | true => have := hv rfl; simp; omega
   | false => have := hn rfl; simp; omega
 
-/-- a function value, a package function, a method called through an interface value (its signature has no receiver):
-    the offset is 0, whatever the arity -/
-theorem rcvr_offset_none (hasRecv recvIsIface isVariadic : Bool) (numIn nArgs : Nat)
-    (h : hasRecv = false ∨ recvIsIface = true) :
-    rcvrOffsetY E hasRecv recvIsIface isVariadic numIn nArgs = 0 := by
-  rw [rcvrOffset_rule]; rcases h with h | h <;> simp [h]
+/-- a function value, a package function, a method called through an interface value, a variable holding a METHOD VALUE
+    (`mv := c.M; mv(…)`: the signature of `v.Method(i)` has no receiver; repair b1e4f7b of F07-3): the offset is 0, whatever the
+    arity, the variadic position and the number of arguments -/
+theorem rcvr_offset_none (hasRecv recvIsIface methodValue isVariadic : Bool) (numIn nArgs : Nat)
+    (h : hasRecv = false ∨ recvIsIface = true ∨ methodValue = true) :
+    rcvrOffsetY E hasRecv recvIsIface methodValue isVariadic numIn nArgs = 0 := by
+  rw [rcvrOffset_rule]; rcases h with h | h | h <;> simp [h]
 
-/-- domain of the method-value case: `recv` is set but the signature (of `v.Method(i)`) has no receiver -/
-def DomMethodValue (isVariadic : Bool) (nParams nArgs : Nat) : Bool :=
-  if isVariadic then nParams == 1 && decide (nArgs ≥ 1) else decide (nArgs ≥ nParams)
-
-/-- **Receiver offset, method value** (`f := v.M; f(…)`), partial: correct (0) when the method is not variadic and every
-    parameter has its own argument, or the variadic parameter is the only one and gets at least one argument -/
-theorem rcvr_offset_method_value_partial (isVariadic : Bool) (nParams nArgs : Nat)
-    (hd : DomMethodValue isVariadic nParams nArgs = true) :
-    rcvrOffsetY E true false isVariadic nParams nArgs = 0 := by
-  rw [rcvrOffset_rule]
-  cases isVariadic with
-  | true =>
-    simp [DomMethodValue] at hd
-    obtain ⟨h1, h2⟩ := hd
-    subst h1; simp; omega
-  | false => simp [DomMethodValue] at hd; simp; omega
-
-/-- `mv := c.Mix; mv(a, b, s, rest...)` with `Mix(a int8, b float64, s string, rest ...uint16)`: the offset is 1 although the
-    signature has no receiver (finding F07-3): every constant argument is converted to the type of the NEXT parameter -/
-theorem rcvr_offset_method_value_witness :
-    rcvrOffsetY E true false true 4 4 = 1 ∧ DomMethodValue true 4 4 = false ∧
-    argTypeIndexY E true 4 (rcvrOffsetY E true false true 4 4) 1 = (2, false) ∧ typeIndexSpec true 4 0 1 = (1, false) := by
-  decide
-
-def RcvrOffsetFull : Prop :=
+/-- **Receiver offset, FULL**: the offset is 1 exactly when the reflected signature starts with the receiver — a method of a
+    non-interface host value selected at the call —, for every arity, variadic position and argument count -/
+def RcvrOffsetFull (f : Facts) : Prop :=
   ∀ (isVariadic recvInSig : Bool) (nParams nArgs : Nat), (isVariadic = true → nParams ≥ 1) → (isVariadic = false → nArgs ≤ nParams) →
-    rcvrOffsetY E true false isVariadic (nParams + (if recvInSig then 1 else 0)) nArgs = (if recvInSig then 1 else 0)
+    rcvrOffsetY f true false (!recvInSig) isVariadic (nParams + (if recvInSig then 1 else 0)) nArgs = (if recvInSig then 1 else 0)
 
-theorem rcvr_offset_full_fails : ¬ RcvrOffsetFull := by
+theorem rcvr_offset_full : RcvrOffsetFull E := by
+  intro isVariadic recvInSig nParams nArgs hv hn
+  cases recvInSig with
+  | true => simpa using rcvr_offset_correct isVariadic nParams nArgs hv hn
+  | false => simpa using rcvr_offset_none true false true isVariadic nParams nArgs (Or.inr (Or.inr rfl))
+
+theorem rcvr_offset_generated : RcvrOffsetFull Generated.C07.facts := by
+  rw [facts_tie]; exact rcvr_offset_full
+
+/-- the guard before b1e4f7b (no `c0.action == aGetMethod`) -/
+def preMethodValueGuard : Facts := { E with recvGuardGetMethod := false }
+
+/-- regression F07-3 — `mv := c.Mix; mv(a, b, s, rest...)` with `Mix(a int8, b float64, s string, rest ...uint16)`: the offset was 1
+    although the signature has no receiver, every constant argument was converted to the type of the NEXT parameter -/
+theorem rcvr_offset_method_value_regression :
+    rcvrOffsetY preMethodValueGuard true false true true 4 4 = 1 ∧
+    argTypeIndexY preMethodValueGuard true 4 (rcvrOffsetY preMethodValueGuard true false true true 4 4) 1 = (2, false) ∧
+    rcvrOffsetY E true false true true 4 4 = 0 ∧
+    argTypeIndexY E true 4 (rcvrOffsetY E true false true true 4 4) 1 = (1, false) ∧ typeIndexSpec true 4 0 1 = (1, false) ∧
+    ¬ RcvrOffsetFull preMethodValueGuard := by
+  refine ⟨by decide, by decide, by decide, by decide, by decide, ?_⟩
   intro h
   have := h true false 4 4 (by decide) (by decide)
   revert this; decide
-
-/-- non-vacuity: a method value with three parameters, not variadic, is in the domain -/
-example : DomMethodValue false 3 3 = true ∧ rcvrOffsetY E true false false 3 3 = 0 := by decide
 
 /-! ### callBin: which parameter type an argument is prepared for -/
 
